@@ -45,6 +45,9 @@ def reset_lib(lib, prop):
 def run_one(lib, prop, case, stats):
     """runs a case from a clean allocator state; raises Violation"""
     try:
+        # ambient state inherited from "earlier unrelated calls": errno (0, ERANGE, EINVAL, EDOM), a function of the case
+        import ctypes
+        ctypes.set_errno((0, 34, 22, 33)[core.h64(case) & 3])
         prop.run_case(lib, case, stats)
     except Violation:
         reset_lib(lib, prop)
